@@ -173,7 +173,9 @@ func main() {
 			continue
 		}
 		sh, ix := -1, 0
-		if res.Interference {
+		if res.NoModel {
+			c.Count("affected-results(oracle only, not modelled)")
+		} else if res.Interference {
 			c.Count("timer-interference(no correspondence)")
 		} else {
 			sh, ix = c.Case(updsim.CoqCase(res, nil, nil), rep)
@@ -204,9 +206,10 @@ func main() {
 			continue
 		}
 		sh, ix := -1, 0
-		if !j.res.Interference {
+		if !j.res.Interference && !j.res.NoModel {
 			sh, ix = c.Case(updsim.CoqCase(j.res, j.persisted, j.records), rep)
 		}
+		j.res.Affected = first.Affected // our own actions of the first run are known to the application
 		fs, np := updsim.CheckPrefixSafe(j.res, j.persisted)
 		prefixes += np
 		for _, f := range fs {
